@@ -19,8 +19,11 @@ BUILDS = ["rel", "dbg", "relchk"]
 CORPUS_MODS = ["c01", "c02", "c03", "c04", "c05", "c06", "c07", "c08", "c09", "c10", "c11", "c12", "c13", "c14", "c15"]
 
 
+VECCHK = ["sse41chk", "nativechk"]
+
+
 def builds_needed(tier):
-    return BUILDS + ["avx", "native"]
+    return BUILDS + ["avx", "native"] + VECCHK
 
 
 def bounds(tier):
@@ -56,7 +59,7 @@ def shards(tier):
                     continue
                 keep.append(j)
                 continue
-            if fname == "shard_many_calls":
+            if fname in ("shard_many_calls", "shard_huge"):
                 # 66000-call programs: optimised checked build only in the quick tier
                 if build == "relchk":
                     keep.append(j)
@@ -78,6 +81,18 @@ def shards(tier):
     # the counter-crossing programs also on the vector builds (the BLAKE2 vector compressions take the counter words as an operand)
     for b in ("avx", "native"):
         sh.append(("shard_counters", b))
+    # vector code paths under checked arithmetic (+sse4.1 and target-cpu=native, each with overflow checks and debug assertions): the
+    # multi-block SHA-256 / BLAKE2 programs of C16, the counter programs, and the SHA-256 / BLAKE2 one-shot shards of C01
+    for b in VECCHK:
+        sh.append(("shard_counters", b))
+        for v in ("sha256", "sha224"):
+            for pre in (0, 1, 63):
+                sh.append(("shard_c16_component", ("shard_sha", (b, v, pre))))
+        for which in ("b", "s"):
+            sh.append(("shard_c16_component", ("shard_blake2", (b, which))))
+        sh.append(("shard_c16_component", ("shard_spots", b)))
+    from props import c01
+    sh += [("shard_foreign", j) for j in multi.foreign_jobs(["c01"], "quick", VECCHK, select=lambda mn, f, a: f != "shard_huge" and c01._vec(f, a))]
     if tier == "thorough":
         sh.append(("shard_misuse", ("rel", "memcheck")))
     return sh
@@ -157,6 +172,10 @@ def cipher_counter_cases():
                 cases.append((["cnew s0 %s 20 %s %s" % (v, P(6, 1, kl), P(7, 2, nl)), ("seek s0 %d" if bits == 32 else "setctr64 s0 %d") % s0, "process s0 %s" % P(0, 0, n)],
                               ["-", "-", exp], None))
     return cases
+
+
+def shard_c16_component(arg, tier):
+    return multi.run_component("c16", arg[0], arg[1], tier, PROPERTY_ID)
 
 
 def shard_counters(build, tier):
